@@ -101,7 +101,8 @@ def rvalue(rng, nd, depth=2):
                 return rng.choice(pool)
             if r < 0.75:
                 return str(rng.choice(pool)) if rng.random() < 0.8 else rng.choice(["+4", "-", "", "abc", "1x", "--2"])
-            return rng.choice([None, True, False, [1], {"a": 1}, b"x", "abc"])
+            return rng.choice([None, True, False, [1], {"a": 1}, b"x", "abc", 2.5, -0.5, 15.0, 1e10, float("inf"), float("-inf"),
+                               float("nan"), 7.9])
         if kind[0] == "str":
             mn, mx = kind[1], kind[2]
             pool = ["abc", "Hello", "", "  pad  ", "x", "abcdefghijkl", "MiXeD", "bad!", " bad! ", "BAD!", "abcde", "ab", "   "]
@@ -275,7 +276,10 @@ def matrix_cases():
     vt = [(0, "t", "bad!")]
     ops = [
         ((), ("set", "n", 5, "attr")), ((), ("set", "n", "77", "dotted")), ((), ("set", "n", 0, "attr")), ((), ("set", "n", 101, "attr")),
-        ((), ("set", "n", True, "attr")), ((), ("set", "n", None, "attr")), ((), ("set", "s", " HeLLo ", "attr")),
+        ((), ("set", "n", True, "attr")), ((), ("set", "n", None, "attr")), ((), ("set", "n", 7.9, "attr")),
+        ((), ("set", "n", float("inf"), "dotted")), ((), ("set", "n", float("nan"), "attr")), ((), ("set", "n", -0.5, "attr")),
+        ((), ("set", "sub", {"a": float("inf")}, "attr")), ((), ("set", "items", [{"n": 1}, {"n": float("-inf")}], "attr")),
+        ((), ("load", {"n": float("inf")}, True)), ((), ("set", "s", " HeLLo ", "attr")),
         ((), ("set", "s", "  ", "attr")), ((), ("set", "s", "toolongvalue", "attr")), ((), ("set", "s", 5, "attr")),
         ((), ("set", "s", None, "attr")), ((), ("set", "nokey", 1, "attr")),
         ((), ("set", "sub", {"a": 7, "inner": {"t": "ok"}}, "attr")), ((), ("set", "sub", {"a": 21}, "attr")),
@@ -930,6 +934,10 @@ def oracle_for(prop, c, obs):
                 nd = dict(node_at(fields, tsteps)).get(o[1])
                 if nd is not None and nd["t"] == "leaf" and not nd["callable"] and ta[0].get(o[1]) != nd["default"]:
                     bad.append("reset of %s gives %r, declared default %r" % (o[1], ta[0].get(o[1]), nd["default"]))
+                if nd is not None and nd["t"] != "leaf":
+                    exp = fresh_snapshot(nd)
+                    if exp is not NotImplemented and canon_snap(ta[0].get(o[1])) != canon_snap(exp):
+                        bad.append("reset of %s does not restore what a fresh configuration holds there" % o[1])
         if prop == "C15" and is_err and o[0] in ("set", "load"):
             kind = out[1]
             tpath = st["tpath"]
@@ -997,6 +1005,21 @@ def _undeclared_walk(fields, dyn, tree):
     return False
 
 
+def fresh_snapshot(nd):
+    """what a freshly built configuration holds in the slot of node nd, from the declaration alone (no callable defaults inside)"""
+    if nd["t"] == "leaf":
+        return NotImplemented if nd["callable"] else copy.deepcopy(nd["default"])
+    if nd["t"] == "cfglist":
+        return None
+    data = {}
+    for k, sub in nd["fields"]:
+        v = fresh_snapshot(sub)
+        if v is NotImplemented:
+            return NotImplemented
+        data[k] = v
+    return ({k: data[k] for k in sorted(data)}, sorted(data), [])
+
+
 def has_undeclared(c, tsteps, o):
     """does the assigned/loaded value hold, at a position where a non-dynamic schema is declared, an undeclared key"""
     walk = _undeclared_walk
@@ -1026,7 +1049,12 @@ def norm_leaf(c, tsteps, key, x):
     if x is None:
         return None
     if k[0] == "int":
-        return int(x) if not isinstance(x, bool) else NotImplemented
+        if isinstance(x, bool):
+            return NotImplemented
+        try:
+            return int(x)
+        except (ValueError, OverflowError, TypeError):
+            return NotImplemented
     if k[0] == "str":
         v = x
         if not isinstance(v, str):
